@@ -334,6 +334,8 @@ def acquire_key(ctx, rnd, cands, race_p=0.08):
     for _ in range(8):
         k = rnd.choice(cands)
         with ctx.lock:
+            if k in getattr(ctx, "reserved", ()):
+                continue        # set aside by the main thread for a directed step (take-over deregistration)
             if race or k not in ctx.busy:
                 tok = (k, k not in ctx.busy)
                 ctx.busy.add(k)
@@ -1293,6 +1295,20 @@ def run_cluster(args):
         with ctx.fault_lock:
             if victim.stopped:
                 victim.sigcont()
+            # set aside a few pure-HTTP instances owned by the victim: registered now, replicated, then left alone until the survivors
+            # have taken the victim's services over - their deregistration then meets copies that still name the dead node
+            ctx.reserved = set()
+            if plan["down_s"] >= 15:
+                cands = [k for k in ctx.keys if ctx.key_kind[k] == "http" and ctx.owner_at(k, time.time()) == victim.id]
+                rnd.shuffle(cands)
+                for k in cands[:4]:
+                    with ctx.lock:
+                        if k in ctx.busy:
+                            continue
+                        ctx.reserved.add(k)
+                    others = [n for n in ctx.nodes if n.alive() and n.id != victim.id]
+                    http_op(ctx, "takeover", rnd, k, rnd.choice(others), op="http_register")
+                time.sleep(SYNC_WINDOW + 0.6)
             ctx.pre_kill_obs = {n.id: observe_node(ctx, n) for n in ctx.nodes}
             res["evaluations"] += 1
             ctx.up[victim.id] = False
@@ -1317,9 +1333,23 @@ def run_cluster(args):
                             "t_call": t_k, "t_ret": t_k, "result": "ok", "detail": "node %d killed" % victim.id})
         res["connections_lost_with_victim"] = len(lost)
         # ---- D (survivors), optional checkpoint while down
-        segment(ctx, plan["down_s"])
+        if plan["down_s"] >= 15 and ctx.reserved:
+            # 15 s liveness rule + 3 s status tick + slack: the survivors own the victim's services now
+            segment(ctx, max(0.0, t_k + 19.5 - time.time()))
+            done = 0
+            for k in sorted(ctx.reserved):
+                surv = [n for n in ctx.nodes if n.alive()]
+                rec = http_op(ctx, "takeover", rnd, k, rnd.choice(surv), op="http_deregister")
+                done += 1 if rec.get("result") == "ok" else 0
+            ctx.count("deregistrations_after_takeover", done)
+            if done:
+                res["mechanisms"].add("deregistered-after-takeover-before-any-update-by-the-new-owner")
+            segment(ctx, max(0.5, t_k + plan["down_s"] - time.time()))
+        else:
+            segment(ctx, plan["down_s"])
         if plan["down_s"] >= 15:
             checkpoint(ctx, "node-down", res)
+        ctx.reserved = set()
         # ---- restart (clients keep going after a short outage), E, final checkpoint
         ctx.nemesis_on = False
         with ctx.fault_lock:
@@ -1393,7 +1423,7 @@ def make_plan(rnd, idx, tier):
     kind = ["join", "outage"][idx % 2] if tier == "quick" else ["join", "outage", "join", "outage", "formed"][idx % 5]
     return {
         "kind": kind, "late_join": kind == "join", "victim": rnd.choice([1, 2, 3]),
-        "down_s": round(rnd.uniform(20, 24) if kind == "outage" else rnd.uniform(4, 8), 1),
+        "down_s": round(rnd.uniform(21.5, 24) if kind == "outage" else rnd.uniform(4, 8), 1),
         "seg_a": round(rnd.uniform(5, 7), 1), "seg_b": round(rnd.uniform(4, 6), 1), "seg_c": round(rnd.uniform(5, 7), 1),
         "seg_e": round(rnd.uniform(4, 6), 1), "http_clients": 3, "grpc_clients": 4,
         "late_look": True, "no_grpc_on_restarted": kind == "join" and idx % 4 < 2,
